@@ -88,6 +88,7 @@ func ZZ_C17_identity_is_an_exact_copy() {
 	junkPos, junkNeg := store.NewDenseStore(), store.NewDenseStore()
 	r := s.ChangeMapping(zzStub(1), junkPos, junkNeg, 1)
 	zzvAssert("identity-content-equal", zzSameContent(r, g, p))
+	zzvAssert("identity-copy-shares-no-store-memory", zzvAnd(zzvDisjoint(r.positiveValueStore, s.positiveValueStore), zzvDisjoint(r.negativeValueStore, s.negativeValueStore)))
 	zzvAssert("identity-carries-mapping", r.IndexMapping.Equals(m))
 	zzvAssert("identity-source-unchanged", zzSameExact(s, g))
 	zzvAssert("identity-does-not-use-the-given-stores", junkPos.IsEmpty() && junkNeg.IsEmpty())
